@@ -8,6 +8,8 @@
 //   L5_simple_constant   user-specified and constant distributions: construction + history, classes from values and weights
 //   L6_invariant_mixed   invariant class + nested continuous distribution: normalisation, merged classes, history
 //   L7_mixture           mixture of 2-3 continuous distributions: normalisation, merged classes, cdf, history
+//   L8_exponential_tail  an exponential whose restricted domain is left with 1e-3 .. 1e-43 of the mass: the update returns
+//                        and leaves K finite class values (carries the known NaN / hang finding)
 // The first draw of L1, L2, L5, L6, L7 switches the value lookups after every step on (0 = off), so that a failure that is
 // not about lookups shrinks to a case without them.
 //
@@ -45,7 +47,7 @@ namespace {
 const short SCH_EQPROB = 1, SCH_EQINT = 2, SCH_WHENPOSSIBLE = 3;
 const double MASS_MIN = 1e-3, U_MARGIN = 1e-5;
 // Beta shapes: see the note at genCP (C08 claims the beta quantile for shapes >= 0.3 only)
-const double BETA_SHAPE_MIN = 0.3;
+const double BETA_SHAPE_MIN = 0.1;
 
 // ------------------------------------------------------------------ small utilities
 bool refAccepts(const IntervalConstraint& ic, double v) {
@@ -223,7 +225,7 @@ void checkLookups(vf::Ctx& c, const DDI& d, const Obs& o, double slack, const Ch
 }
 
 // structural invariants shared by every kind of distribution; returns the observables
-Obs checkStructure(const DDI& d, size_t wantK, double slack, double sumTol, bool valuesInsideIntervals, const string& where) {
+Obs checkStructure(const DDI& d, size_t wantK, double slack, double sumTol, bool valuesInsideIntervals, const string& where, bool boundsOrdered = true) {
   CHECK(d.getNumberOfCategories() == wantK, where << ": getNumberOfCategories() = " << d.getNumberOfCategories() << ", expected " << wantK);
   Obs o = observeD(d);
   size_t K = wantK;
@@ -237,7 +239,7 @@ Obs checkStructure(const DDI& d, size_t wantK, double slack, double sumTol, bool
   CHECK(o.b.size() == K + 1, where << ": getBounds() has " << o.b.size() << " entries for " << K << " classes");
   CHECK(vf::sameBits(o.b[0], o.lo) && vf::sameBits(o.b[K], o.hi), where << ": first/last bound " << vf::dec(o.b[0]) << "/" << vf::dec(o.b[K]) << " differ from getLowerBound/getUpperBound " << vf::dec(o.lo) << "/" << vf::dec(o.hi));
   for (size_t k = 0; k <= K; ++k) CHECK(!std::isnan(o.b[k]), where << ": bound " << k << " is NaN");
-  for (size_t k = 0; k < K; ++k) CHECK(o.b[k] <= o.b[k + 1], where << ": bounds decrease at " << k << ": " << showVec(o.b));
+  if (boundsOrdered) for (size_t k = 0; k < K; ++k) CHECK(o.b[k] <= o.b[k + 1] + slack, where << ": bounds decrease at " << k << ": " << showVec(o.b));
   for (size_t i = 0; i + 1 < K; ++i) CHECK(vf::sameBits(d.getBound(i), o.b[i + 1]), where << ": getBound(" << i << ") differs from getBounds()[" << i + 1 << "]");
   bool raised = false;
   try { d.getBound(K - 1); } catch (IndexOutOfBoundsException&) { raised = true; }
@@ -278,12 +280,28 @@ bool regularState(const Model& m, LD Flo, LD Fhi) {
 
 // Known defects that make an operation hang or leave garbage are characterised BEFORE the operation is made:
 // `next` is the state the operation leads to, [lo,hi] the domain it will have.
+// The generator stays inside the quantifier: an operation that would leave less than MASS_MIN of the parent's mass on the
+// domain, or take a quantile argument out of its working range, is not made (the history ends there).
+struct StopHistory {};
+// The multiplicative normalisation of median-valued classes needs a positive factor mean / (mean of the class medians):
+// there is none when the parent's mean over the domain is 0 (or cannot be told from 0), when the medians sum to 0, or when
+// the two have different signs. The medians of the state to come are taken from a scratch object of the same family
+// (routing of the known finding only, never an oracle).
+bool medianFactorUnusable(const Model& next, double lo, double hi) {
+  LD surf = refE(next.q, hi) - refE(next.q, lo), Flo = refP(next.q, lo), mass = refP(next.q, hi) - Flo;
+  double tolE = tolOf(next.q.f).e * scaleOf(next.q);
+  if (std::abs(static_cast<double>(surf)) < 100 * tolE) return true;
+  unique_ptr<DDI> scratch = make(next.q, 1, SCH_EQPROB);
+  LD sum = 0;
+  for (size_t k = 0; k < next.K; ++k) sum += scratch->qProb(static_cast<double>(Flo + (static_cast<LD>(k) + 0.5L) * mass / next.K));
+  if (!(std::abs(static_cast<double>(sum)) > 1e-6 * static_cast<double>(next.K) * scaleOf(next.q))) return true;
+  return (surf > 0) != (sum > 0);
+}
 void guardKnown(vf::Ctx& c, const Model& next, double lo, double hi) {
   if (next.q.f == F_GAMMA && next.q.off < 0) c.excludeIfKnown("C09-gamma-negative-offset-expectation");
   // median-valued classes are the class medians times (parent mean / mean of the medians): 0/0 when the mean is 0
-  if (next.median && next.scheme != SCH_EQINT && refE(next.q, hi) - refE(next.q, lo) == 0) c.excludeIfKnown("C09-median-zero-mean");
-  // 1-exp(-lambda x) cannot resolve a domain far in the tail: a bound becomes -log(0) = inf, Expectation(inf) = NaN
-  if (next.q.f == F_EXPO && refP(next.q, hi) - refP(next.q, lo) < 1e-12L) c.excludeIfKnown("C09-nan-class-value-hang");
+  if (!(lo < hi) || !regularState(next, refP(next.q, lo), refP(next.q, hi))) throw StopHistory();
+  if (next.median && next.scheme != SCH_EQINT && medianFactorUnusable(next, lo, hi)) c.excludeIfKnown("C09-median-zero-mean");
 }
 
 void checkCont(vf::Ctx& c, const DDI& d, const Model& m, const CheckOpt& opt, const string& where) {
@@ -361,7 +379,7 @@ void checkCont(vf::Ctx& c, const DDI& d, const Model& m, const CheckOpt& opt, co
     } else {
       // v_k = c * median_k with sum p_k v_k = parent mean
       double surf = std::abs(static_cast<double>(meanRef * mass));
-      if (surf == 0) c.excludeIfKnown("C09-median-zero-mean");
+      if (medianFactorUnusable(m, lo, hi)) c.excludeIfKnown("C09-median-zero-mean");
       double uLo = d.pProb(lo), ec = (d.pProb(hi) - uLo) / static_cast<double>(K);
       vector<double> med(K); LD sum = 0;
       for (size_t k = 0; k < K; ++k) {
@@ -386,13 +404,18 @@ void checkCont(vf::Ctx& c, const DDI& d, const Model& m, const CheckOpt& opt, co
       } else {
         LD cfac = meanRef * K / sum;
         double rel = 2 * tolE / surf + 2 * tol.p / massD + 64 * EPS;
+        bool adjusted = false;
         for (size_t k = 0; k < K; ++k) {
           double want = static_cast<double>(cfac * med[k]), errV = std::abs(want) * rel + slack;
+          // documented adjustment: a value beyond an end of the domain is moved to that end +- precision (then separated)
+          if (want < lo + prec + errV && std::abs(o.v[k] - lo) <= slack * (1 + 4 * EPS) + 4 * EPS * std::abs(lo)) { adjusted = true; continue; }
+          if (want > hi - prec - errV && std::abs(o.v[k] - hi) <= slack * (1 + 4 * EPS) + 4 * EPS * std::abs(hi)) { adjusted = true; continue; }
           double dv = std::abs(o.v[k] - want);
           c.observe("medianvalue/tol[" + string(famName(q.f)) + "]", dv / errV);
           CHECK(dv <= errV, where << ": median-valued class " << k << " has value " << vf::dec(o.v[k]) << ", expected factor*median = " << vf::dec(want) << " (factor " << vf::dec(static_cast<double>(cfac)) << " makes the discrete mean equal the parent's mean; tolerance " << errV << "); values " << showVec(o.v));
         }
         double e = std::abs(static_cast<double>(dmean - meanRef)), t = std::abs(static_cast<double>(meanRef)) * rel + slack;
+        if (adjusted) { c.label("mean_skipped_boundary_adjustment"); e = 0; }
         c.observe("discretemean_median/tol[" + string(famName(q.f)) + "]", e / t);
         CHECK(e <= t, where << ": discrete mean of the median-valued classes = " << vf::dec(static_cast<double>(dmean)) << " but the parent's mean over the domain is " << vf::dec(static_cast<double>(meanRef)) << " (tolerance " << t << ")");
       }
@@ -501,7 +524,7 @@ LAW(L1_fresh_enum, ENUM, 4, 4, 0, "K >= 2 and (shape < 1 or median-valued classe
   unique_ptr<DDI> d = make(m.q, K, scheme);
   CheckOpt opt; opt.lookups = lookups;
   checkCont(c, *d, m, opt, "after construction");
-  if (median) { m.median = true; guardKnown(c, m, d->getLowerBound(), d->getUpperBound()); d->setMedian(true); checkCont(c, *d, m, opt, "after setMedian(true)"); }
+  if (median) { m.median = true; try { guardKnown(c, m, d->getLowerBound(), d->getUpperBound()); } catch (StopHistory&) { throw vf::Skip(); } d->setMedian(true); checkCont(c, *d, m, opt, "after setMedian(true)"); }
   checkParent(c, *d, m.q, "parent functions", 0);
 }
 
@@ -515,7 +538,7 @@ LAW(L2_history, RC, 9000, 400000, 160, "K >= 2 and (a restriction, a class-count
   unique_ptr<DDI> d = make(m.q, m.K, m.scheme);
   checkCont(c, *d, m, opt, "after construction");
   checkParent(c, *d, m.q, "parent functions after construction", 1);
-  if (startMedian) { c.desc << "; setMedian(1)"; m.median = true; guardKnown(c, m, d->getLowerBound(), d->getUpperBound()); d->setMedian(true); checkCont(c, *d, m, opt, "after setMedian(true)"); }
+  if (startMedian) { c.desc << "; setMedian(1)"; m.median = true; try { guardKnown(c, m, d->getLowerBound(), d->getUpperBound()); } catch (StopHistory&) { throw vf::Skip(); } d->setMedian(true); checkCont(c, *d, m, opt, "after setMedian(true)"); }
   bool restricted = false, kChanged = false, rejected = false;
   bool texpBound = false;   // an accepted restriction made the domain object the constraint of the truncation point
   const string ns = nsOf(m.q.f);
@@ -526,6 +549,7 @@ LAW(L2_history, RC, 9000, 400000, 160, "K >= 2 and (a restriction, a class-count
     if ((kind == 0 || kind == 1) && prs.empty()) kind = 5;
     ostringstream w; w << "after op " << op + 1 << " ";
     bool paramsChanged = false;
+    try {
     switch (kind) {
       case 0: case 1: {  // setParameterValue / matchParametersValues, accepted or rejected values
         size_t n = kind == 0 ? 1 : 1 + c.below(prs.size());
@@ -616,6 +640,7 @@ LAW(L2_history, RC, 9000, 400000, 160, "K >= 2 and (a restriction, a class-count
         d = std::move(e); texpBound = false;
         break; }
     }
+    } catch (StopHistory&) { c.desc << " [the history ends here: the operation would leave the regular range]"; c.label("stopped_before_leaving_the_regular_range"); break; }
     if (op >= nops) break;
     checkCont(c, *d, m, opt, w.str());
     if (paramsChanged) checkParent(c, *d, m.q, w.str() + " (parent functions)", 0);
@@ -653,6 +678,7 @@ LAW(L4_lookup, RC, 6000, 300000, 40, "K >= 2 and the point is not in the first c
   if (m.q.f == F_GAMMA && m.q.off < 0) m.q.off = -m.q.off;   // keep clear of the negative-offset finding: this law is about lookups
   unique_ptr<DDI> d = make(m.q, m.K, m.scheme);
   c.desc << showModel(m);
+  try {
   if (m.median) { guardKnown(c, m, d->getLowerBound(), d->getUpperBound()); d->setMedian(true); }
   if (c.oneIn(3)) {
     Restr r; auto massOf = [&](double a, double b) { return static_cast<double>(refP(m.q, b) - refP(m.q, a)); };
@@ -662,6 +688,7 @@ LAW(L4_lookup, RC, 6000, 300000, 40, "K >= 2 and the point is not in the first c
       d->restrictToConstraint(IntervalConstraint(r.x1, r.x2, r.in1, r.in2));
     }
   }
+  } catch (StopHistory&) { throw vf::Skip(); }
   LD Flo = refP(m.q, d->getLowerBound()), Fhi = refP(m.q, d->getUpperBound());
   if (!regularState(m, Flo, Fhi)) throw vf::Skip();
   const size_t K = m.K; const double slack = (K + 1) * precisionOf(*d);
@@ -913,8 +940,10 @@ LAW(L6_invariant_mixed, RC, 4000, 200000, 170, "the invariant lies inside the su
   vector<Model> comps(1); comps[0] = genNestedModel(c, true); Model& nm = comps[0];
   vector<double> wts(1); wts[0] = c.weighted({3, 1, 1, 3}) == 0 ? c.pick({0.25, 0.5, 0.1}) : c.flag() ? c.unit() : (c.flag() ? 0.0 : 1.0);
   unique_ptr<DDI> nd = make(nm.q, nm.K, nm.scheme);
-  if (c.oneIn(4)) { nm.median = true; guardKnown(c, nm, nd->getLowerBound(), nd->getUpperBound()); nd->setMedian(true); }
-  guardKnown(c, nm, nd->getLowerBound(), nd->getUpperBound());
+  try {
+    if (c.oneIn(4)) { nm.median = true; guardKnown(c, nm, nd->getLowerBound(), nd->getUpperBound()); nd->setMedian(true); }
+    guardKnown(c, nm, nd->getLowerBound(), nd->getUpperBound());
+  } catch (StopHistory&) { throw vf::Skip(); }
   Vdouble cats = nd->getCategories(); double nlo = nd->getLowerBound(), nhi = nd->getUpperBound(), inv = 0; int place = static_cast<int>(c.weighted({4, 1, 2, 2, 1}));
   switch (place) {
     case 0: inv = 0; break;
@@ -946,7 +975,10 @@ LAW(L6_invariant_mixed, RC, 4000, 200000, 170, "the invariant lies inside the su
     // the classes above the invariant are shifted (known finding): then only the classes themselves are compared
     const bool merged = K == nv.size(), boundsOff = merged && c.isKnown("C09-invariant-coincide-bounds");
     if (merged) c.label("invariant_merged_with_a_class");
-    Obs o = checkStructure(*d, K, (K + 1) * prec, K * 1e-12, !nm.median && !boundsOff, where);
+    // median-valued nested classes are scaled medians that may leave their intervals (documented scaling): the compound's
+    // bounds are built from those values and nested bounds, so its interval structure is only checked for mean-valued classes
+    const bool intervalsOk = !nm.median && !boundsOff;
+    Obs o = checkStructure(*d, K, (K + 1) * prec, K * 1e-12, intervalsOk, where, intervalsOk);
     compareClasses(o, want, 4 * EPS, where);
     // cdf of the compound: (1-p) F + p [x >= invariant]
     for (size_t k = 0; k < o.v.size(); ++k) {
@@ -954,7 +986,7 @@ LAW(L6_invariant_mixed, RC, 4000, 200000, 170, "the invariant lies inside the su
       LD ref = (1 - static_cast<LD>(p)) * refP(nm.q, x) + (x < inv ? 0 : p);
       CHECK(std::abs(d->pProb(x) - static_cast<double>(ref)) <= tolOf(nm.q.f).p + 4 * EPS, where << ": pProb(" << vf::dec(x) << ") = " << vf::dec(d->pProb(x)) << " but (1-p) F(x) + p [x >= invariant] = " << vf::dec(static_cast<double>(ref)));
     }
-    if (!boundsOff && opt.lookups) checkLookups(c, *d, o, (K + 1) * prec, opt, where);
+    if (intervalsOk && opt.lookups) checkLookups(c, *d, o, (K + 1) * prec, opt, where);
     auditParams(*d, where);
   };
   check("after construction");
@@ -964,6 +996,7 @@ LAW(L6_invariant_mixed, RC, 4000, 200000, 170, "the invariant lies inside the su
   for (int op = 0; op < nops; ++op) {
     ostringstream w; w << "after op " << op + 1 << " ";
     const DDI& nst = nestedOf(0);
+    try {
     switch (c.weighted({5, 3, 2, 3, 1, 1, 1})) {
       case 0: if (compoundUpdate(c, *d, slots, comps, wts, nestedOf, rejected, w)) touched = true; break;
       case 1: { size_t nk = genK(c); c.desc << "; setNumberOfCategories(" << nk << ")"; w << "setNumberOfCategories(" << nk << ")"; nm.K = nk; guardKnown(c, nm, nst.getLowerBound(), nst.getUpperBound()); d->setNumberOfCategories(nk); touched = true; break; }
@@ -1003,6 +1036,7 @@ LAW(L6_invariant_mixed, RC, 4000, 200000, 170, "the invariant lies inside the su
         d = std::move(e);
         break; }
     }
+    } catch (StopHistory&) { c.desc << " [the history ends here: the operation would leave the regular range]"; c.label("stopped_before_leaving_the_regular_range"); break; }
     check(w.str());
   }
   c.nt(place == 2 || place == 3 || touched || rejected);
@@ -1023,7 +1057,7 @@ LAW(L7_mixture, RC, 3000, 150000, 220, "always (compound family): 2-3 components
   vector<double> probas; for (unsigned x : iw) probas.push_back(static_cast<double>(x) / W);
   vector<double> theta; { LD rest = 1; for (size_t i = 0; i + 1 < nc; ++i) { theta.push_back(static_cast<double>(probas[i] / rest)); rest -= probas[i]; } }
   c.desc << "Mixture(";
-  for (size_t i = 0; i < nc; ++i) { c.desc << (i ? " + " : "") << vf::dec(probas[i]) << "*" << showModel(comps[i]); objs.push_back(make(comps[i].q, comps[i].K, comps[i].scheme)); guardKnown(c, comps[i], objs[i]->getLowerBound(), objs[i]->getUpperBound()); }
+  for (size_t i = 0; i < nc; ++i) { c.desc << (i ? " + " : "") << vf::dec(probas[i]) << "*" << showModel(comps[i]); objs.push_back(make(comps[i].q, comps[i].K, comps[i].scheme)); try { guardKnown(c, comps[i], objs[i]->getLowerBound(), objs[i]->getUpperBound()); } catch (StopHistory&) { throw vf::Skip(); } }
   c.desc << ")";
   unique_ptr<DDI> d(new MixtureOfDiscreteDistributions(objs, probas));
   objs.clear();
@@ -1054,8 +1088,9 @@ LAW(L7_mixture, RC, 3000, 150000, 220, "always (compound family): 2-3 components
     double hlo = INFINITY, hhi = -INFINITY; for (size_t i = 0; i < nc; ++i) { hlo = std::min(hlo, nestedOf(i).getLowerBound()); hhi = std::max(hhi, nestedOf(i).getUpperBound()); }
     CHECK(vf::sameBits(o.lo, hlo) && vf::sameBits(o.hi, hhi), where << ": domain [" << vf::dec(o.lo) << ";" << vf::dec(o.hi) << "] is not the hull [" << vf::dec(hlo) << ";" << vf::dec(hhi) << "] of the components' domains");
     (void)anyMedian;
-    for (size_t k = 0; k < K; k += 1 + K / 6) {   // cdf = mixture of the component cdfs
-      double x = o.v[k]; LD ref = 0; double t = 4 * EPS; for (size_t i = 0; i < nc; ++i) { ref += wgt[i] * refP(comps[i].q, x); t += static_cast<double>(wgt[i]) * tolOf(comps[i].q.f).p; }
+    double ilo = -INFINITY, ihi = INFINITY; for (size_t i = 0; i < nc; ++i) { ilo = std::max(ilo, nestedOf(i).getLowerBound()); ihi = std::min(ihi, nestedOf(i).getUpperBound()); }
+    for (size_t k = 0; k < K; k += 1 + K / 6) {   // cdf = mixture of the component cdfs (where every component cdf is defined)
+      double x = o.v[k]; LD ref = 0; if (!(x > ilo && x < ihi)) continue; double t = 4 * EPS; for (size_t i = 0; i < nc; ++i) { ref += wgt[i] * refP(comps[i].q, x); t += static_cast<double>(wgt[i]) * tolOf(comps[i].q.f).p; }
       CHECK(std::abs(d->pProb(x) - static_cast<double>(ref)) <= t + 1e-13, where << ": pProb(" << vf::dec(x) << ") = " << vf::dec(d->pProb(x)) << " but the mixture of the component cdfs is " << vf::dec(static_cast<double>(ref)));
     }
     // values inside their own interval holds by construction of midpoint bounds when the extreme values lie in the domain
@@ -1073,6 +1108,7 @@ LAW(L7_mixture, RC, 3000, 150000, 220, "always (compound family): 2-3 components
   int nops = c.irange(0, 8);
   for (int op = 0; op < nops; ++op) {
     ostringstream w; w << "after op " << op + 1 << " ";
+    try {
     switch (c.weighted({5, 2, 2, 3, 1, 1, 1})) {
       case 0: if (compoundUpdate(c, *d, slots, comps, theta, nestedOf, rejected, w)) exactW = false; break;
       case 1: {
@@ -1109,10 +1145,32 @@ LAW(L7_mixture, RC, 3000, 150000, 220, "always (compound family): 2-3 components
         d = std::move(e);
         break; }
     }
+    } catch (StopHistory&) { c.desc << " [the history ends here: the operation would leave the regular range]"; c.label("stopped_before_leaving_the_regular_range"); break; }
     check(w.str());
   }
   c.nt(true);
   if (rejected) c.label("rejected_update");
+}
+
+// =================================================================== L8: far tail of the exponential (outside the regular range)
+// The other laws end a history before the domain loses (almost) all its mass. This law goes there on purpose for the one
+// family whose cdf is written as 1-exp(-lambda x): whatever is left of the accuracy, the update must return and leave
+// K finite class values.
+LAW(L8_exponential_tail, RC, 1500, 50000, 12, "the domain keeps less than 1e-6 of the parent's mass", 3, true) {
+  Model m; m.q.f = F_EXPO; m.q.a = genPos(c); m.K = genK(c);
+  double x1 = -std::log(c.pick({0.5, 0.9, 0.1, 0.7})) / m.q.a;               // lower end of the restricted domain
+  double logMass = -(3 + 40 * c.unit());                                    // mass left after the update: 1e-3 .. 1e-43 (natural log scale / 2.3)
+  double lam2 = -logMass * 2.302585092994046 / x1;
+  c.desc << show(m.q) << " K=" << m.K << " restricted to ]" << vf::dec(x1) << ";inf] then lambda=" << vf::dec(lam2) << " (mass left 1e" << logMass << ")";
+  c.nt(logMass < -6);
+  unique_ptr<DDI> d = make(m.q, m.K, SCH_EQPROB);
+  d->restrictToConstraint(IntervalConstraint(x1, INFINITY, false, true));
+  if (logMass < -12) c.excludeIfKnown("C09-nan-class-value-hang");
+  d->setParameterValue("lambda", lam2);
+  Vdouble v = d->getCategories(), p = d->getProbabilities();
+  CHECK(v.size() == p.size(), "values and probabilities have different lengths");
+  for (double x : v) CHECK(std::isfinite(x), "a class value is " << x << " after the update; values " << showVec(v));
+  CHECK(v.size() == m.K, "the update left " << v.size() << " classes instead of " << m.K << "; values " << showVec(v));
 }
 
 static struct Init { Init() { vf::G().resetHook = [] { vf::quietBpp(); vf::installAudit(); }; } } init_;
